@@ -6,11 +6,14 @@ package chainsim
 // and then fed the rest of the history.
 
 import (
+	"bytes"
 	"fmt"
 	"os"
 	"path/filepath"
 	"sort"
 	"strings"
+
+	"github.com/piotrnar/gocoin/lib/btc"
 
 	"verif/harness/hx"
 	"verif/harness/ledger"
@@ -310,6 +313,34 @@ func (r *run) recoverImage(root, template string, log []simos.Effect, k int, tru
 			ok = false
 			return
 		}
+		// a clean shutdown and one more restart: what was appended after the recovery must have gone to the right
+		// places in the block files (a record torn by the crash may be followed by new records)
+		sub.n.Close()
+		sub.boot()
+		if h2, _ := sub.n.Tip(); h2 != fh {
+			r.viol("crash.second-restart", "after crash recovery, re-feeding the history and a clean restart the tip is %s, before the restart it was %s. %s", hs(h2), hs(fh), desc)
+			ok = false
+			return
+		}
+		if d := diffUTXO(sub.n.Dump(), fn.UTXO()); d != "" {
+			r.viol("crash.second-restart", "after crash recovery, re-feeding the history and a clean restart the unspent set is not the replay of the tip's chain: %s. %s", d, desc)
+			ok = false
+			return
+		}
+		// every accepted valid block must still be readable from the block store
+		for _, bi := range r.delivOrder {
+			ln := r.nodes[bi]
+			if ln == nil || !ln.Valid() || sub.status[ln.Hash] != 1 {
+				continue
+			}
+			d, _, e := sub.n.Ch.Blocks.BlockGet(btc.NewUint256(ln.Hash[:]))
+			if e != nil || !bytes.Equal(d, ln.Blk.Bytes()) {
+				r.viol("crash.second-restart", "after crash recovery, re-feeding the history and a clean restart block %s (height %d) cannot be read back from the block store (%v). %s", hs(ln.Hash), ln.Height, e, desc)
+				ok = false
+				return
+			}
+		}
+		out.Probe("second_restart_after_recovery", 1)
 		sub.n.Close()
 	})
 	phase := "recovery"
